@@ -4,7 +4,8 @@
 //! 0 (ref op ref), 1 (value op value), 2 (value op ref), 3 (ref op value), a per-instruction
 //! mix, and with the other operand KIND (record op number <-> record op constant-record,
 //! sub_swapped / div_swapped / number.pow(record) <-> constant-record op record, Sum <-> fold of
-//! +).  All six must produce the same observation, which is printed once:
+//! +).  All six must produce the same observation (and every record's number must equal the same
+//! computation carried out on plain numbers with the element type's own operators); printed once:
 //!   ( ((number is_constant index derivs) per output) (index of every variable) )
 use crate::guarded;
 use crate::num::Enc;
@@ -82,12 +83,18 @@ where
     let Some(prog) = parse_prog::<T>(body) else { return bad_case() };
     let Some(outs) = parse_outs(outs, prog.len()) else { return bad_case() };
     let vars = var_nodes(&prog);
+    let plain = run_plain::<T>(&prog);
     let mut canonical: Option<Sx> = None;
     for mode in 0..6u8 {
         let list = WengertList::<T>::new();
         let obs = match run_records::<T>(&list, &prog, mode) {
             Err(code) => return inconsistent(code),
-            Ok(nodes) => match observe::<T>(&nodes, &vars, &outs) {
+            Ok(nodes) => match if nodes.iter().zip(plain.iter()).all(|(r, p)| r.number == *p) {
+                observe::<T>(&nodes, &vars, &outs)
+            } else {
+                // the number carried by a record must be the same computation on plain numbers
+                Err(250)
+            } {
                 Err(code) => return inconsistent(code),
                 Ok(s) => s,
             },
